@@ -16,6 +16,7 @@ ANCHORS = ['pycaption.srt:SRTReader.read', 'pycaption.srt:SRTWriter.write', 'pyc
            'pycaption.webvtt:WebVTTWriter.write', 'pycaption.dfxp.base:DFXPReader.read',
            'pycaption.dfxp.base:DFXPWriter.write', 'pycaption.sami:SAMIReader.read', 'pycaption.sami:SAMIWriter.write',
            'pycaption.microdvd:MicroDVDReader.read', 'pycaption.microdvd:MicroDVDWriter.write']
+THOROUGH_SCALE = 2.5        # random budgets of the thorough tier are multiplied by this
 REQUIRE = {'hops': 2000, 'chains_len2': 300, 'chains_longer': 50, 'second_passes': 300, 'multi_language_chains': 20,
            'cues_compared': 5000, 'chains_with_microdvd': 100, 'chains_with_sami': 100}
 FORMATS = ['srt', 'webvtt', 'dfxp', 'sami', 'microdvd']
